@@ -3129,7 +3129,7 @@ template< size_t L>
    if ((pos + 1 > mLength) || (mLength == 0))
       return std::string::npos;
    if (pos == std::string::npos)
-      pos = mLength;
+      pos = mLength - 1;
    for (size_t idx = pos + 1; idx-- > 0; )
    {
       if (mString[ idx] == ch)
